@@ -156,6 +156,8 @@ func (r *MetricRegistry) RegisterDistribution(
 	}
 
 	// only add once
+	r.mu.Lock()
+	defer r.mu.Unlock()
 	if l, ok := r.registeredListeners[ID]; ok {
 		return l
 	}
@@ -183,6 +185,8 @@ func (r *MetricRegistry) RegisterTiming(
 	}
 
 	// only add once
+	r.mu.Lock()
+	defer r.mu.Unlock()
 	if l, ok := r.registeredListeners[ID]; ok {
 		return l
 	}
@@ -209,6 +213,8 @@ func (r *MetricRegistry) RegisterCount(
 	}
 
 	// only add once
+	r.mu.Lock()
+	defer r.mu.Unlock()
 	if l, ok := r.registeredListeners[ID]; ok {
 		return l
 	}
